@@ -70,3 +70,26 @@ func init() {
 		}
 	})
 }
+
+func init() {
+	register("C06", propInfo{
+		Explanation: "Decides structural preconditions of 'no lost or spurious wake-up': every index map of the subscription manager is constructed before use; the context-GC loops delete from the index they range over; the manager shares the owner's live clock map; every registration calls into the manager with the owner's state lock held exclusively (atomic snapshot + insert); processSubscriptions reaches all four collectors, with the right argument sets, and closes what they return; re-activated Multi states reach the subscriptions (Enters/Exits on the non-auto path); ProcessWhen's counter updates are conditional on the binding's own per-state index.",
+		NotDecided:  "The iff-semantics of each channel under all interleavings between setActiveStates and processSubscriptions; matcher arithmetic.",
+		Trusted:     commonTrusted,
+	}, func(c *Ctx) {
+		a := c.core()
+		if a.ok {
+			c.rulesC06(a, c.lockAnalysis())
+		}
+	})
+	register("C13", propInfo{
+		Explanation: "Decides: (all) Subscriptions.dispose visits every primary waiter index of the struct, enumerated from the type so new indexes are covered; (once) the release actions of doDispose are dominated by the successful CompareAndSwap on the disposed flag and dispose handlers are run nowhere else; (nil) exported methods that use mustParseStates' result refuse on the same disposing flag first; (order) no lock-order inversion or W re-acquisition among Machine/Subscriptions locks in must-held terms; (loop) blocking selects of exported Machine methods have a <-m.ctx.Done() case and internal ones a context/timer exit.",
+		NotDecided:  "Goroutine exit and promptness (timing), double-dispose schedules, what user dispose handlers do.",
+		Trusted:     commonTrusted,
+	}, func(c *Ctx) {
+		a := c.core()
+		if a.ok {
+			c.rulesC13(a, c.lockAnalysis())
+		}
+	})
+}
